@@ -60,6 +60,7 @@ func BuildWorlds(cfg Config, prop string, nFix, nSyn, rejectPct int, rich bool, 
 			case 0:
 				opts.SetupName = "my.setup.go"
 				opts.NearMiss = true
+				opts.PercentText = true
 				opts.ForceHooks = true
 				opts.Surroundings = 3
 			case 1:
@@ -71,6 +72,7 @@ func BuildWorlds(cfg Config, prop string, nFix, nSyn, rejectPct int, rich bool, 
 				opts.ThirdParty = true
 			case 2:
 				opts.SetupName = "user.gorm.go"
+				opts.IndirectTwin = true
 				opts.CRLF = true
 				opts.DotGoDir = true
 				opts.Competing = true
@@ -79,6 +81,7 @@ func BuildWorlds(cfg Config, prop string, nFix, nSyn, rejectPct int, rich bool, 
 			case 3:
 				opts.SetupName = "catalog.go"
 				opts.GetterTwin = true
+				opts.IndirectTwin = true
 				opts.Competing = true
 				opts.Collide = true
 			}
